@@ -10,6 +10,7 @@
 // O15.2  `InterfaceUnit::validate_hash()`  <=>  interface_hash == compute_hash();
 //        `InterfaceUnit::new` / `CoreUnit::new` stamp both version constants, keep the package name and the dependency map,
 //        and produce units that validate (for CoreUnit::new: iff the package names agree).
+//          iface_new (symbolic package, 0/1 dependency), core_new_nodeps (symbolic packages), core_new_onedep (one concrete entry)
 //
 // Stubs (`-Z stubbing`, confirmed from Kani's output, listed in evidence):
 //   InterfaceUnit::compute_hash  -> constant "H"   (the real one is serde_json + SHA-256 + hex: out of CBMC's reach; that
@@ -63,7 +64,11 @@ fn any_unit(ideps: BTreeMap<String, String>, cdeps: BTreeMap<String, String>) ->
     }
 }
 
-fn check_validate(unit: &CoreUnit) {
+struct Conj {
+    got: bool,
+    c: [bool; 5],
+}
+fn check_validate(unit: &CoreUnit) -> Conj {
     let c1 = unit.format_version == FORMAT_VERSION;
     let c2 = unit.compiler_abi == COMPILER_ABI;
     let c3 = unit.package == unit.interface.package;
@@ -71,13 +76,10 @@ fn check_validate(unit: &CoreUnit) {
     let c5 = unit.deps == unit.interface.deps;
     let got = unit.validate();
     assert!(got == (c1 && c2 && c3 && c4 && c5), "O15.1 validate() is not the conjunction of its five conditions");
-    kani::cover!(got, "a unit that validates");
-    kani::cover!(!got && !c1 && c2 && c3 && c4 && c5, "rejected only for the format version");
-    kani::cover!(!got && c1 && !c2 && c3 && c4 && c5, "rejected only for the compiler ABI");
-    kani::cover!(!got && c1 && c2 && !c3 && c4 && c5, "rejected only for the package name");
-    kani::cover!(!got && c1 && c2 && c3 && !c4 && c5, "rejected only for the interface hash");
-    kani::cover!(!got && c1 && c2 && c3 && c4 && !c5, "rejected only for the dependency hashes");
-    kani::cover!(unit.format_version == u32::MAX, "largest version number");
+    Conj { got, c: [c1, c2, c3, c4, c5] }
+}
+fn only_fails(k: &Conj, i: usize) -> bool {
+    !k.got && !k.c[i] && (i == 0 || k.c[0]) && (i == 1 || k.c[1]) && (i == 2 || k.c[2]) && (i == 3 || k.c[3]) && (i == 4 || k.c[4])
 }
 
 #[kani::proof]
@@ -90,7 +92,14 @@ fn validate_fixed_maps() {
     let mut cdeps = BTreeMap::new();
     cdeps.insert(String::from("A"), ab());
     let unit = any_unit(ideps, cdeps);
-    check_validate(&unit);
+    let k = check_validate(&unit);
+    kani::cover!(k.got, "a unit that validates");
+    kani::cover!(only_fails(&k, 0), "rejected only for the format version");
+    kani::cover!(only_fails(&k, 1), "rejected only for the compiler ABI");
+    kani::cover!(only_fails(&k, 2), "rejected only for the package name");
+    kani::cover!(only_fails(&k, 3), "rejected only for the interface hash");
+    kani::cover!(only_fails(&k, 4), "rejected only for the dependency hashes");
+    kani::cover!(unit.format_version == u32::MAX, "largest version number");
     std::mem::forget(unit);
 }
 
@@ -110,9 +119,9 @@ fn validate_any_maps() {
     let i_n = ideps.len();
     let c_n = cdeps.len();
     let unit = any_unit(ideps, cdeps);
-    check_validate(&unit);
-    kani::cover!(i_n == 0 && c_n == 0 && unit.validate(), "validates with two empty maps");
-    kani::cover!(i_n != c_n, "maps of different size");
+    let k = check_validate(&unit);
+    kani::cover!(i_n == 0 && c_n == 0 && k.got, "validates with two empty maps");
+    kani::cover!(i_n != c_n && only_fails(&k, 4), "rejected only because the maps differ in size");
     std::mem::forget(unit);
 }
 
@@ -149,24 +158,57 @@ fn iface_validate_hash() {
 #[kani::unwind(6)]
 #[kani::stub(std::hash::RandomState::new, fixed_rs)]
 #[kani::stub(InterfaceUnit::compute_hash, stub_hash)]
-fn unit_constructors() {
+fn iface_new() {
     let mut deps = BTreeMap::new();
     let with_dep: bool = kani::any();
     if with_dep {
         deps.insert(String::from("A"), ab());
     }
-    let ipkg_is_a: bool = kani::any();
-    let iface = InterfaceUnit::new(if ipkg_is_a { String::from("A") } else { String::from("B") }, empty_exports(), empty_hir_interface(), deps);
+    let pkg_is_a: bool = kani::any();
+    let iface = InterfaceUnit::new(if pkg_is_a { String::from("A") } else { String::from("B") }, empty_exports(), empty_hir_interface(), deps);
     assert!(iface.format_version == FORMAT_VERSION && iface.compiler_abi == COMPILER_ABI, "O15.2 InterfaceUnit::new does not stamp the version constants");
-    assert!(iface.interface_hash == iface.compute_hash() && iface.validate_hash(), "O15.2 InterfaceUnit::new does not store the computed hash");
-    assert!(iface.package == if ipkg_is_a { "A" } else { "B" }, "O15.2 InterfaceUnit::new changes the package name");
+    assert!(iface.interface_hash == iface.compute_hash(), "O15.2 InterfaceUnit::new does not store the computed hash");
+    assert!(iface.validate_hash(), "O15.2 a freshly constructed InterfaceUnit does not validate");
+    assert!(iface.package == if pkg_is_a { "A" } else { "B" }, "O15.2 InterfaceUnit::new changes the package name");
     assert!(iface.deps.len() == if with_dep { 1 } else { 0 }, "O15.2 InterfaceUnit::new changes the dependency map");
+    kani::cover!(with_dep && !pkg_is_a, "interface of package B with one dependency");
+    kani::cover!(!with_dep, "interface without dependencies");
+    std::mem::forget(iface);
+}
+
+/// `CoreUnit::new` over an interface without dependencies (cloning a non-empty BTreeMap is out of CBMC's reach: see core_new_onedep)
+#[kani::proof]
+#[kani::unwind(6)]
+#[kani::stub(std::hash::RandomState::new, fixed_rs)]
+#[kani::stub(InterfaceUnit::compute_hash, stub_hash)]
+fn core_new_nodeps() {
+    let ipkg_is_a: bool = kani::any();
+    let iface = InterfaceUnit::new(if ipkg_is_a { String::from("A") } else { String::from("B") }, empty_exports(), empty_hir_interface(), BTreeMap::new());
     let cpkg_is_a: bool = kani::any();
     let core = CoreUnit::new(if cpkg_is_a { String::from("A") } else { String::from("B") }, iface, crate::core::File { toplevels: Vec::new() });
     assert!(core.format_version == FORMAT_VERSION && core.compiler_abi == COMPILER_ABI, "O15.2 CoreUnit::new does not stamp the version constants");
-    assert!(core.deps == core.interface.deps, "O15.2 CoreUnit::new does not copy the interface's dependency hashes");
+    assert!(core.deps.len() == 0 && core.interface.deps.len() == 0, "O15.2 CoreUnit::new invents dependencies");
+    assert!(core.package == if cpkg_is_a { "A" } else { "B" }, "O15.2 CoreUnit::new changes the package name");
     assert!(core.validate() == (cpkg_is_a == ipkg_is_a), "O15.2 a freshly constructed CoreUnit validates iff the package names agree");
-    kani::cover!(core.validate() && with_dep, "fresh unit with a dependency validates");
+    kani::cover!(core.validate(), "fresh unit validates");
     kani::cover!(!core.validate(), "fresh unit with mismatching package names is rejected");
+    std::mem::forget(core);
+}
+
+/// `CoreUnit::new` copies the interface's dependency hashes (one concrete entry)
+#[kani::proof]
+#[kani::unwind(6)]
+#[kani::stub(std::hash::RandomState::new, fixed_rs)]
+#[kani::stub(InterfaceUnit::compute_hash, stub_hash)]
+fn core_new_onedep() {
+    let mut deps = BTreeMap::new();
+    deps.insert(String::from("A"), String::from("H"));
+    let iface = InterfaceUnit::new(String::from("B"), empty_exports(), empty_hir_interface(), deps);
+    let core = CoreUnit::new(String::from("B"), iface, crate::core::File { toplevels: Vec::new() });
+    assert!(core.format_version == FORMAT_VERSION && core.compiler_abi == COMPILER_ABI, "O15.2 CoreUnit::new does not stamp the version constants");
+    assert!(core.deps.len() == 1, "O15.2 CoreUnit::new does not copy the interface's dependency hashes");
+    assert!(core.deps == core.interface.deps, "O15.2 CoreUnit::new does not copy the interface's dependency hashes");
+    assert!(core.validate(), "O15.2 a freshly constructed CoreUnit does not validate");
+    kani::cover!(core.validate(), "fresh unit with a dependency validates");
     std::mem::forget(core);
 }
